@@ -227,7 +227,7 @@ class Analyzer:
             iprobs = probabilities[i, :]
             error = 1
             # Loop over expected outputs and subtract from error value
-            for o in out:
+            for o in set(out):
                 if o in outputs:
                     loc = outputs.index(o)
                     error -= iprobs[loc] / sum(iprobs)
